@@ -165,7 +165,7 @@ _PLAIN_TAG = {("pr", 1): "!force", ("pr", -1): "!weak", ("del", "T"): "!del", ("
 
 _KIND_TAG = {"required": "!required", "xref": "!xref", "clear": "!clear", "append": "!append",
              "extend": "!extend", "prev": "!prev", "include": "!include", "eval": "!eval",
-             "fstr": "!fstr", "import": "!import", "null": "!null"}
+             "fstr": "!fstr", "import": "!import", "null": "!null", "rec": "!rec"}
 _MD_OK_KIND = {"xref", "bind", "call", "eval", "required", "null", "path", "clear", "extend"}
 
 
@@ -249,6 +249,14 @@ def _render(sd, ind):
         return [tag + " [" + ", ".join(json.dumps(n) for n in names) + "]"]
     if k in ("eval", "fstr", "import"):
         return [tag + " " + json.dumps(atom_py(sd["v"]))]
+    if k == "rec":
+        # !rec [name, ...]: the names are scalars (possibly tagged, e.g. `!unsafe "f.yaml"`)
+        items = []
+        for _, c in sd["ch"]:
+            assert c["k"] == "scalar" and c["v"][0] == "s", c
+            ct = tag_text(c)
+            items.append((ct + " " if ct else "") + json.dumps(c["v"][1]))
+        return [tag + " [" + ", ".join(items) + "]"]
     raise ValueError(k)
 
 
